@@ -53,7 +53,10 @@ CONSTANTS MaxTasks, MaxWorkers, MaxSenders,
           KindChoices,    \* subset of {"async","blocking"}: dispatch / dispatch_blocking
           BodyPanics,     \* BOOLEAN: a task body may panic
           BodyUsesPool,   \* BOOLEAN: an async body may run one blocking op on the shared pool
-          JoinerOnPool    \* BOOLEAN: TRUE = pinned tree (joiner dispatched to the pool), FALSE = repaired
+          JoinerOnPool,   \* BOOLEAN: TRUE = pinned tree (joiner dispatched to the pool), FALSE = repaired
+          ReceiverDrops,  \* BOOLEAN: the caller may drop the oneshot receiver of an accepted closure
+          SkipIfReceiverGone \* BOOLEAN: FALSE = the code; TRUE = control: "nobody wants the result, do
+                          \* not start it" (must violate the property, MC_Dispatcher_skip.cfg)
 
 Tasks   == 1..MaxTasks
 Workers == 1..MaxWorkers
@@ -73,6 +76,8 @@ VARIABLES
   res,      \* oneshot: "open" | "value" | "closed" (sender dropped without a value)
   bop,      \* blocking op of an async body: "no" | "want" (spinning in push_blocking) | "has" | "used"
   nstart,   \* ghost: number of times the closure was called
+  rdrop,    \* the caller dropped its receiver while the closure was still on its way (fire and
+            \* forget); forgotten once the closure is complete / dropped: nothing reads it then
   wpc,      \* worker pc, see WpcSet
   cur,      \* closure the worker holds / awaits (0 = none)
   wpanic,   \* the worker thread ended by a panic
@@ -84,7 +89,7 @@ VARIABLES
   jres,     \* "none" | "ok" | "panic"
   poolBusy  \* occupied pool slots
 
-vars == <<cfg, q, txAlive, rx, st, kind, owner, res, bop, nstart, wpc, cur, wpanic,
+vars == <<cfg, q, txAlive, rx, st, kind, owner, res, bop, nstart, rdrop, wpc, cur, wpanic,
           spc, scur, sres, jpc, jidx, jvia, jres, poolBusy>>
 
 StSet  == {"new",       \* not dispatched
@@ -96,7 +101,8 @@ StSet  == {"new",       \* not dispatched
            "running",   \* func called
            "done",      \* body returned, callback.send executed (same poll)
            "panicked",  \* body panicked, future and oneshot sender dropped
-           "dropped"}   \* closure / future dropped unfinished (runtime drop, queue freed)
+           "dropped",   \* closure / future dropped unfinished (runtime drop, queue freed)
+           "skipped"}   \* control only: completed without func ever being called
 WpcSet == {"absent", "boot", "recv", "await", "fin", "left", "exited"}
 
 \* ---------------------------------------------------------------------------
@@ -107,7 +113,7 @@ Init0(c) ==
    st |-> [i \in Tasks |-> "new"], kind |-> [i \in Tasks |-> "none"],
    owner |-> [i \in Tasks |-> Nobody], res |-> [i \in Tasks |-> "open"],
    bop |-> [i \in Tasks |-> "no"],
-   nstart |-> [i \in Tasks |-> 0],
+   nstart |-> [i \in Tasks |-> 0], rdrop |-> [i \in Tasks |-> FALSE],
    wpc |-> [w \in Workers |-> IF w <= c.nw THEN "boot" ELSE "absent"],
    cur |-> [w \in Workers |-> 0], wpanic |-> [w \in Workers |-> FALSE],
    spc |-> [s \in Senders |-> "idle"], scur |-> [s \in Senders |-> 0],
@@ -117,7 +123,7 @@ Init0(c) ==
 Init == \E c \in Configs :
   LET z == Init0(c) IN
   /\ cfg = z.cfg /\ q = z.q /\ txAlive = z.txAlive /\ rx = z.rx /\ st = z.st /\ kind = z.kind
-  /\ owner = z.owner /\ res = z.res /\ bop = z.bop /\ nstart = z.nstart
+  /\ owner = z.owner /\ res = z.res /\ bop = z.bop /\ nstart = z.nstart /\ rdrop = z.rdrop
   /\ wpc = z.wpc /\ cur = z.cur /\ wpanic = z.wpanic /\ spc = z.spc /\ scur = z.scur
   /\ sres = z.sres /\ jpc = z.jpc /\ jidx = z.jidx /\ jvia = z.jvia /\ jres = z.jres
   /\ poolBusy = z.poolBusy
@@ -153,7 +159,7 @@ DispatchCall(s, i, k) ==
   /\ scur' = [scur EXCEPT ![s] = i]
   /\ st' = [st EXCEPT ![i] = "inflight"]
   /\ kind' = [kind EXCEPT ![i] = k]
-  /\ UNCHANGED <<cfg, q, txAlive, rx, owner, res, bop, nstart, wpc, cur, wpanic, sres,
+  /\ UNCHANGED <<rdrop, cfg, q, txAlive, rx, owner, res, bop, nstart, wpc, cur, wpanic, sres,
                  jpc, jidx, jvia, jres, poolBusy>>
 
 \* self.sender.send(..): linearization point of dispatch. Err iff every receiver is gone.
@@ -168,7 +174,7 @@ DispatchSend(s) ==
        ELSE /\ q' = q
             /\ st' = [st EXCEPT ![i] = "returned"]      \* closure recovered from SendError
             /\ sres' = [sres EXCEPT ![s] = "rejected"]
-  /\ UNCHANGED <<cfg, txAlive, rx, kind, owner, res, bop, nstart, wpc, cur, wpanic, scur,
+  /\ UNCHANGED <<rdrop, cfg, txAlive, rx, kind, owner, res, bop, nstart, wpc, cur, wpanic, scur,
                  jpc, jidx, jvia, jres, poolBusy>>
 
 \* self.pool.dispatch(concrete): accepted when a slot is free; a rejection hands the closure back.
@@ -182,7 +188,7 @@ DispatchPoolAccept(s) ==
   /\ st' = [st EXCEPT ![i] = "pooled"]
   /\ owner' = [owner EXCEPT ![i] = Pool]
   /\ sres' = [sres EXCEPT ![s] = "accepted"]
-  /\ UNCHANGED <<cfg, q, txAlive, rx, kind, res, bop, nstart, wpc, cur, wpanic, scur,
+  /\ UNCHANGED <<rdrop, cfg, q, txAlive, rx, kind, res, bop, nstart, wpc, cur, wpanic, scur,
                  jpc, jidx, jvia, jres>>
 
 DispatchPoolReject(s) ==
@@ -191,7 +197,7 @@ DispatchPoolReject(s) ==
   /\ spc' = [spc EXCEPT ![s] = "returning"]
   /\ st' = [st EXCEPT ![i] = "returned"]
   /\ sres' = [sres EXCEPT ![s] = "rejected"]
-  /\ UNCHANGED <<cfg, q, txAlive, rx, kind, owner, res, bop, nstart, wpc, cur, wpanic, scur,
+  /\ UNCHANGED <<rdrop, cfg, q, txAlive, rx, kind, owner, res, bop, nstart, wpc, cur, wpanic, scur,
                  jpc, jidx, jvia, jres, poolBusy>>
 
 \* Ok(rx) / Err(DispatchError(f)) reaches the caller
@@ -200,8 +206,22 @@ DispatchRet(s) ==
   /\ spc' = [spc EXCEPT ![s] = "idle"]
   /\ scur' = [scur EXCEPT ![s] = 0]
   /\ sres' = [sres EXCEPT ![s] = "none"]
-  /\ UNCHANGED <<cfg, q, txAlive, rx, st, kind, owner, res, bop, nstart, wpc, cur, wpanic,
+  /\ UNCHANGED <<rdrop, cfg, q, txAlive, rx, st, kind, owner, res, bop, nstart, wpc, cur, wpanic,
                  jpc, jidx, jvia, jres, poolBusy>>
+
+\* The caller drops the oneshot receiver it got from Ok(rx) (fire-and-forget dispatch): possible at
+\* any time after the call returned.  The dispatcher must not care: no action of the code reads
+\* rdrop - a closure is started whether or not anybody still listens (callback.send(res).ok()
+\* just fails silently).  Once the closure is complete or dropped the receiver is history.
+Final(x) == x \in {"done", "panicked", "dropped", "skipped", "returned"}
+ForgetFinal(st2) == [i \in Tasks |-> rdrop[i] /\ ~Final(st2[i])]
+DropReceiver(i) ==
+  /\ ReceiverDrops
+  /\ st[i] \in {"queued", "spawned", "pooled", "running"} /\ ~rdrop[i]
+  /\ \A s \in Senders : scur[s] # i          \* Ok(rx) has reached the caller
+  /\ rdrop' = [rdrop EXCEPT ![i] = TRUE]
+  /\ UNCHANGED <<cfg, q, txAlive, rx, st, kind, owner, res, bop, nstart, wpc, cur, wpanic,
+                 spc, scur, sres, jpc, jidx, jvia, jres, poolBusy>>
 
 \* What the caller's oneshot receiver reports when polled now.  Receiving does not change the
 \* dispatcher, so it is a function of the state, not an action.
@@ -213,7 +233,7 @@ RecvOutcome(i) == IF res[i] = "value" THEN "ok" ELSE IF res[i] = "closed" THEN "
 WorkerBoot(w) ==
   /\ wpc[w] = "boot"
   /\ wpc' = [wpc EXCEPT ![w] = "recv"]
-  /\ UNCHANGED <<cfg, q, txAlive, rx, st, kind, owner, res, bop, nstart, cur, wpanic,
+  /\ UNCHANGED <<rdrop, cfg, q, txAlive, rx, st, kind, owner, res, bop, nstart, cur, wpanic,
                  spc, scur, sres, jpc, jidx, jvia, jres, poolBusy>>
 
 \* .expect("cannot create compio runtime"): the thread closure unwinds, its receiver is dropped
@@ -224,6 +244,7 @@ WorkerBootPanic(w) ==
   /\ rx' = rx \ {w}
   /\ st' = StAfterHandles(txAlive, rx') /\ res' = ResAfterHandles(txAlive, rx')
   /\ q' = QAfterHandles(txAlive, rx')
+  /\ rdrop' = ForgetFinal(st')
   /\ UNCHANGED <<cfg, txAlive, kind, owner, bop, nstart, cur, spc, scur, sres,
                  jpc, jidx, jvia, jres, poolBusy>>
 
@@ -238,32 +259,37 @@ WorkerRecv(w) ==
        /\ IF cfg.concurrent
             THEN wpc' = wpc /\ cur' = cur
             ELSE wpc' = [wpc EXCEPT ![w] = "await"] /\ cur' = [cur EXCEPT ![w] = i]
-  /\ UNCHANGED <<cfg, txAlive, rx, kind, res, bop, nstart, wpanic, spc, scur, sres,
+  /\ UNCHANGED <<rdrop, cfg, txAlive, rx, kind, res, bop, nstart, wpanic, spc, scur, sres,
                  jpc, jidx, jvia, jres, poolBusy>>
 
 \* sequential mode: task.await.ok() completes (Ok or JoinError::Panicked, both ignored)
 WorkerAwaitDone(w) ==
   /\ wpc[w] = "await" /\ ~Busy(w)
-  /\ st[cur[w]] \in {"done", "panicked"}
+  /\ st[cur[w]] \in {"done", "panicked", "skipped"}
   /\ wpc' = [wpc EXCEPT ![w] = "recv"]
   /\ cur' = [cur EXCEPT ![w] = 0]
-  /\ UNCHANGED <<cfg, q, txAlive, rx, st, kind, owner, res, bop, nstart, wpanic,
+  /\ UNCHANGED <<rdrop, cfg, q, txAlive, rx, st, kind, owner, res, bop, nstart, wpanic,
                  spc, scur, sres, jpc, jidx, jvia, jres, poolBusy>>
 
 \* recv_async() returns Err(Disconnected): only when the queue is empty and the sender is gone
 WorkerLoopEnd(w) ==
   /\ wpc[w] = "recv" /\ ~Busy(w) /\ q = <<>> /\ ~txAlive
   /\ wpc' = [wpc EXCEPT ![w] = "fin"]
-  /\ UNCHANGED <<cfg, q, txAlive, rx, st, kind, owner, res, bop, nstart, cur, wpanic,
+  /\ UNCHANGED <<rdrop, cfg, q, txAlive, rx, st, kind, owner, res, bop, nstart, cur, wpanic,
                  spc, scur, sres, jpc, jidx, jvia, jres, poolBusy>>
 
-\* block_on_at returns after one more tick; the main future (and its receiver clone) is dropped
+\* block_on_at returns after one more tick; the main future (and its receiver clone) is dropped.
+\* That tick (Executor::tick) polls up to event_interval = 61 hot tasks and a freshly spawned task
+\* is hot: every closure this worker popped has been called before the runtime is dropped (the
+\* bound is far outside the sizes explored here and in the recorded programs).
 WorkerLeave(w) ==
   /\ wpc[w] = "fin" /\ ~Busy(w)
+  /\ \A i \in Tasks : owner[i] = w => st[i] # "spawned"
   /\ wpc' = [wpc EXCEPT ![w] = "left"]
   /\ rx' = rx \ {w}
   /\ st' = StAfterHandles(txAlive, rx') /\ res' = ResAfterHandles(txAlive, rx')
   /\ q' = QAfterHandles(txAlive, rx')
+  /\ rdrop' = ForgetFinal(st')
   /\ UNCHANGED <<cfg, txAlive, kind, owner, bop, nstart, cur, wpanic, spc, scur, sres,
                  jpc, jidx, jvia, jres, poolBusy>>
 
@@ -277,6 +303,7 @@ WorkerPollPanic(w) ==
   /\ rx' = rx \ {w}
   /\ st' = StAfterHandles(txAlive, rx') /\ res' = ResAfterHandles(txAlive, rx')
   /\ q' = QAfterHandles(txAlive, rx')
+  /\ rdrop' = ForgetFinal(st')
   /\ UNCHANGED <<cfg, txAlive, kind, owner, bop, nstart, cur, spc, scur, sres,
                  jpc, jidx, jvia, jres, poolBusy>>
 
@@ -289,6 +316,7 @@ WorkerExit(w) ==
   /\ st' = [i \in Tasks |-> IF Unfinished(i, w) THEN "dropped" ELSE st[i]]
   /\ res' = [i \in Tasks |-> IF Unfinished(i, w) THEN "closed" ELSE res[i]]
   /\ owner' = [i \in Tasks |-> IF Unfinished(i, w) THEN Nobody ELSE owner[i]]
+  /\ rdrop' = ForgetFinal(st')
   /\ UNCHANGED <<cfg, q, txAlive, rx, kind, bop, nstart, cur, wpanic, spc, scur, sres,
                  jpc, jidx, jvia, jres, poolBusy>>
 
@@ -306,7 +334,20 @@ Start(i) ==
   /\ st[i] \in {"spawned", "pooled"} /\ Runnable(i)
   /\ st' = [st EXCEPT ![i] = "running"]
   /\ nstart' = [nstart EXCEPT ![i] = @ + 1]
-  /\ UNCHANGED <<cfg, q, txAlive, rx, kind, owner, res, bop, wpc, cur, wpanic, spc, scur, sres,
+  /\ UNCHANGED <<rdrop, cfg, q, txAlive, rx, kind, owner, res, bop, wpc, cur, wpanic, spc, scur, sres,
+                 jpc, jidx, jvia, jres, poolBusy>>
+
+\* CONTROL ONLY (SkipIfReceiverGone): the spawned future looks at callback.is_canceled() first and
+\* returns without calling func.  Realistic ("do not waste the worker's time"), and wrong: an
+\* accepted closure is never started.
+SkipStart(i) ==
+  /\ SkipIfReceiverGone
+  /\ st[i] = "spawned" /\ Runnable(i) /\ rdrop[i]
+  /\ st' = [st EXCEPT ![i] = "skipped"]
+  /\ res' = [res EXCEPT ![i] = "closed"]
+  /\ owner' = [owner EXCEPT ![i] = Nobody]
+  /\ rdrop' = ForgetFinal(st')
+  /\ UNCHANGED <<cfg, q, txAlive, rx, kind, bop, nstart, wpc, cur, wpanic, spc, scur, sres,
                  jpc, jidx, jvia, jres, poolBusy>>
 
 \* the body returns its value and, in the same poll, callback.send(res).ok()
@@ -317,6 +358,7 @@ Finish(i) ==
   /\ res' = [res EXCEPT ![i] = "value"]
   /\ poolBusy' = IF owner[i] = Pool THEN poolBusy - 1 ELSE poolBusy
   /\ owner' = [owner EXCEPT ![i] = Nobody]
+  /\ rdrop' = ForgetFinal(st')
   /\ UNCHANGED <<cfg, q, txAlive, rx, kind, bop, nstart, wpc, cur, wpanic, spc, scur, sres,
                  jpc, jidx, jvia, jres>>
 
@@ -328,6 +370,7 @@ BodyPanic(i) ==
   /\ res' = [res EXCEPT ![i] = "closed"]
   /\ poolBusy' = IF owner[i] = Pool THEN poolBusy - 1 ELSE poolBusy
   /\ owner' = [owner EXCEPT ![i] = Nobody]
+  /\ rdrop' = ForgetFinal(st')
   /\ UNCHANGED <<cfg, q, txAlive, rx, kind, bop, nstart, wpc, cur, wpanic, spc, scur, sres,
                  jpc, jidx, jvia, jres>>
 
@@ -337,14 +380,14 @@ BodyPoolWant(i) ==
   /\ BodyUsesPool
   /\ st[i] = "running" /\ kind[i] = "async" /\ Runnable(i) /\ bop[i] = "no"
   /\ bop' = [bop EXCEPT ![i] = "want"]
-  /\ UNCHANGED <<cfg, q, txAlive, rx, st, kind, owner, res, nstart, wpc, cur, wpanic,
+  /\ UNCHANGED <<rdrop, cfg, q, txAlive, rx, st, kind, owner, res, nstart, wpc, cur, wpanic,
                  spc, scur, sres, jpc, jidx, jvia, jres, poolBusy>>
 
 BodyPoolAcquire(i) ==
   /\ bop[i] = "want" /\ poolBusy < cfg.pool
   /\ bop' = [bop EXCEPT ![i] = "has"]
   /\ poolBusy' = poolBusy + 1
-  /\ UNCHANGED <<cfg, q, txAlive, rx, st, kind, owner, res, nstart, wpc, cur, wpanic,
+  /\ UNCHANGED <<rdrop, cfg, q, txAlive, rx, st, kind, owner, res, nstart, wpc, cur, wpanic,
                  spc, scur, sres, jpc, jidx, jvia, jres>>
 
 \* the pool thread finishes the op (independently of what happened to the task meanwhile)
@@ -352,7 +395,7 @@ BodyPoolDone(i) ==
   /\ bop[i] = "has"
   /\ bop' = [bop EXCEPT ![i] = "used"]
   /\ poolBusy' = poolBusy - 1
-  /\ UNCHANGED <<cfg, q, txAlive, rx, st, kind, owner, res, nstart, wpc, cur, wpanic,
+  /\ UNCHANGED <<rdrop, cfg, q, txAlive, rx, st, kind, owner, res, nstart, wpc, cur, wpanic,
                  spc, scur, sres, jpc, jidx, jvia, jres>>
 
 \* ---------------------------------------------------------------------------
@@ -365,6 +408,7 @@ JoinCall ==
   /\ txAlive' = FALSE
   /\ st' = StAfterHandles(FALSE, rx) /\ res' = ResAfterHandles(FALSE, rx)
   /\ q' = QAfterHandles(FALSE, rx)
+  /\ rdrop' = ForgetFinal(st')
   /\ UNCHANGED <<cfg, rx, kind, owner, bop, nstart, wpc, cur, wpanic, spc, scur, sres,
                  jidx, jvia, jres, poolBusy>>
 
@@ -374,7 +418,7 @@ JoinSpawnOnPool ==
   /\ jpc = "called" /\ poolBusy < cfg.pool
   /\ jpc' = "joining" /\ jidx' = 1 /\ jvia' = "pool"
   /\ poolBusy' = poolBusy + 1
-  /\ UNCHANGED <<cfg, q, txAlive, rx, st, kind, owner, res, bop, nstart, wpc, cur, wpanic,
+  /\ UNCHANGED <<rdrop, cfg, q, txAlive, rx, st, kind, owner, res, bop, nstart, wpc, cur, wpanic,
                  spc, scur, sres, jres>>
 
 \* ... or, when the pool refuses it, runs on a thread of its own:  std::thread::spawn(f.0).
@@ -382,7 +426,7 @@ JoinSpawnOnPool ==
 JoinSpawnOnThread ==
   /\ jpc = "called" /\ (~JoinerOnPool \/ poolBusy >= cfg.pool)
   /\ jpc' = "joining" /\ jidx' = 1 /\ jvia' = "thread"
-  /\ UNCHANGED <<cfg, q, txAlive, rx, st, kind, owner, res, bop, nstart, wpc, cur, wpanic,
+  /\ UNCHANGED <<rdrop, cfg, q, txAlive, rx, st, kind, owner, res, bop, nstart, wpc, cur, wpanic,
                  spc, scur, sres, jres, poolBusy>>
 
 \* threads.into_iter().map(|t| t.join()).collect(); after the last one tx.send(results) and the
@@ -394,7 +438,7 @@ JoinThread ==
        THEN /\ jpc' = "joined"
             /\ poolBusy' = IF jvia = "pool" THEN poolBusy - 1 ELSE poolBusy
        ELSE UNCHANGED <<jpc, poolBusy>>
-  /\ UNCHANGED <<cfg, q, txAlive, rx, st, kind, owner, res, bop, nstart, wpc, cur, wpanic,
+  /\ UNCHANGED <<rdrop, cfg, q, txAlive, rx, st, kind, owner, res, bop, nstart, wpc, cur, wpanic,
                  spc, scur, sres, jvia, jres>>
 
 \* rx.await; for res in results { res.unwrap_or_else(|e| resume_unwind(e)) }; Ok(())
@@ -402,7 +446,7 @@ JoinRet ==
   /\ jpc = "joined"
   /\ jpc' = "returned"
   /\ jres' = IF \E w \in Workers : wpanic[w] THEN "panic" ELSE "ok"
-  /\ UNCHANGED <<cfg, q, txAlive, rx, st, kind, owner, res, bop, nstart, wpc, cur, wpanic,
+  /\ UNCHANGED <<rdrop, cfg, q, txAlive, rx, st, kind, owner, res, bop, nstart, wpc, cur, wpanic,
                  spc, scur, sres, jidx, jvia, poolBusy>>
 
 \* ---------------------------------------------------------------------------
@@ -411,7 +455,7 @@ WorkerStep(w) ==
   \/ WorkerLoopEnd(w) \/ WorkerLeave(w) \/ WorkerPollPanic(w) \/ WorkerExit(w)
 
 TaskStep(i) ==
-  \/ Start(i) \/ Finish(i) \/ BodyPanic(i)
+  \/ Start(i) \/ Finish(i) \/ BodyPanic(i) \/ DropReceiver(i) \/ SkipStart(i)
   \/ BodyPoolWant(i) \/ BodyPoolAcquire(i) \/ BodyPoolDone(i)
 
 JoinStep ==
@@ -443,7 +487,7 @@ Fairness ==
        /\ WF_vars(WorkerAwaitDone(w)) /\ WF_vars(WorkerLoopEnd(w)) /\ WF_vars(WorkerLeave(w))
        /\ WF_vars(WorkerExit(w))
   /\ \A i \in Tasks :
-       /\ WF_vars(Start(i)) /\ WF_vars(Finish(i))
+       /\ WF_vars(Start(i)) /\ WF_vars(Finish(i)) /\ WF_vars(SkipStart(i))
        /\ WF_vars(BodyPoolAcquire(i)) /\ WF_vars(BodyPoolDone(i))
   /\ WF_vars(JoinSpawnOnPool) /\ WF_vars(JoinSpawnOnThread)
   /\ WF_vars(JoinThread) /\ WF_vars(JoinRet)
@@ -463,7 +507,7 @@ TypeOK ==
   /\ st \in [Tasks -> StSet] /\ kind \in [Tasks -> {"none", "async", "blocking"}]
   /\ owner \in [Tasks -> Workers \cup {Pool, Nobody}]
   /\ res \in [Tasks -> {"open", "value", "closed"}]
-  /\ bop \in [Tasks -> {"no", "want", "has", "used"}]
+  /\ bop \in [Tasks -> {"no", "want", "has", "used"}] /\ rdrop \in [Tasks -> BOOLEAN]
   /\ wpc \in [Workers -> WpcSet] /\ cur \in [Workers -> Tasks \cup {0}]
   /\ jpc \in {"idle", "called", "joining", "joined", "returned"}
   /\ poolBusy \in 0..(MaxTasks + 1)
@@ -480,13 +524,14 @@ ExactlyOnce ==
     /\ (st[i] = "running" /\ kind[i] = "async") => owner[i] \in 1..cfg.nw
     /\ (st[i] = "running" /\ kind[i] = "blocking") => owner[i] = Pool
     /\ (st[i] \in {"done", "panicked", "dropped", "returned", "new", "inflight", "queued"}) => owner[i] = Nobody
+    /\ st[i] # "skipped"        \* nothing that was accepted completes without having been called
 
 \* ran to completion => its own receiver gets its result; Canceled only if it did not
 ResultDelivery ==
   \A i \in Tasks :
     /\ (st[i] = "done") <=> (RecvOutcome(i) = "ok")
-    /\ (RecvOutcome(i) = "canceled") => st[i] \in {"panicked", "dropped"}
-    /\ (st[i] \in {"panicked", "dropped"}) => RecvOutcome(i) = "canceled"
+    /\ (RecvOutcome(i) = "canceled") => st[i] \in {"panicked", "dropped", "skipped"}
+    /\ (st[i] \in {"panicked", "dropped", "skipped"}) => RecvOutcome(i) = "canceled"
 
 \* joined first => no receiver of an accepted dispatch() is left open (it resolves at once)
 JoinedFirst ==
@@ -502,6 +547,11 @@ SeqNoOverlap ==
 SeqAllFinished ==
   (~cfg.concurrent /\ Joined /\ jres = "ok") =>
      \A i \in Tasks : (Accepted(i) /\ kind[i] = "async") => st[i] \in {"done", "panicked"}
+\* both modes, independent of whether the caller kept its receiver: when join returns normally
+\* every accepted closure has been started (exactly once, ExactlyOnce)
+AllStartedAtJoin ==
+  (Joined /\ jres = "ok") =>
+     \A i \in Tasks : (Accepted(i) /\ kind[i] = "async") => nstart[i] = 1
 \* concurrent mode: nothing accepted is left behind unresolved either
 ConcNothingLeft ==
   Joined => \A i \in Tasks : (Accepted(i) /\ kind[i] = "async") => st[i] \in {"done", "panicked", "dropped"}
